@@ -80,32 +80,37 @@ Qed.
 
 Definition elen (e : elem) : Q := inject_Z (e_end e) - inject_Z (e_start e).
 
+Lemma is_nil_false {A} (l : list A) : l <> [] -> is_nil l = false.
+Proof. destruct l; [congruence|reflexivity]. Qed.
+
 (* One step in an element of expression [k] of which [len] seconds are left,
-   with fraction [fc] of the trip already done; [cont fc'] is the rest of the
-   trip.  The result is the duration *added* from here on. *)
-Definition hstep (vals : nat -> Q) (fc len : Q) (k : nat) (cont : Q -> tdres) : tdres :=
+   with fraction [fc] of the trip already done; [lst] tells that the element
+   is the last one (no successor): it is then in force for as long as needed;
+   [cont fc'] is the rest of the trip.  The result is the duration *added*
+   from here on. *)
+Definition hstep (vals : nat -> Q) (fc len : Q) (k : nat) (lst : bool) (cont : Q -> tdres) : tdres :=
   let req := (1 - fc) * vals k in
   if Qeq_bool req 0 then Val 0 else
   let can := len / req in
-  if Qle_bool 1 can then Val req else
+  if Qle_bool 1 can || lst then Val req else
   tdres_add (can * req) (cont (fc + can * (1 - fc))).
 
 Fixpoint wk (vals : nat -> Q) (fc : Q) (l : list elem) : tdres :=
   match l with
   | [] => Panic
-  | e :: r => hstep vals fc (elen e) (e_expr e) (fun fc' => wk vals fc' r)
+  | e :: r => hstep vals fc (elen e) (e_expr e) (is_nil r) (fun fc' => wk vals fc' r)
   end.
 
 Definition walkH (vals : nat -> Q) (fc len : Q) (k : nat) (rest : list elem) : tdres :=
-  hstep vals fc len k (fun fc' => wk vals fc' rest).
+  hstep vals fc len k (is_nil rest) (fun fc' => wk vals fc' rest).
 
 Lemma wk_cons vals fc e r : wk vals fc (e :: r) = walkH vals fc (elen e) (e_expr e) r.
 Proof. reflexivity. Qed.
 
-Lemma hstep_morph vals fc fc' len len' k cont cont' :
+Lemma hstep_morph vals fc fc' len len' k lst cont cont' :
   fc == fc' -> len == len' ->
   (forall a b, a == b -> tdres_eq (cont a) (cont' b)) ->
-  tdres_eq (hstep vals fc len k cont) (hstep vals fc' len' k cont').
+  tdres_eq (hstep vals fc len k lst cont) (hstep vals fc' len' k lst cont').
 Proof.
   intros Hfc Hlen Hcont. unfold hstep.
   assert (Hreq : (1 - fc) * vals k == (1 - fc') * vals k) by (rewrite Hfc; reflexivity).
@@ -119,9 +124,11 @@ Proof.
     + simpl; exact Hreq.
     + exfalso; apply L'; rewrite <- Hcan; exact L.
     + exfalso; apply L; rewrite Hcan; exact L'.
-    + apply tdres_add_eq.
-      * rewrite Hcan, Hreq; reflexivity.
-      * apply Hcont. rewrite Hcan, Hfc; reflexivity.
+    + destruct lst; cbn [orb].
+      * simpl; exact Hreq.
+      * apply tdres_add_eq.
+        -- rewrite Hcan, Hreq; reflexivity.
+        -- apply Hcont. rewrite Hcan, Hfc; reflexivity.
 Qed.
 
 Lemma wk_morph vals l : forall fc fc', fc == fc' -> tdres_eq (wk vals fc l) (wk vals fc' l).
@@ -152,11 +159,13 @@ Proof.
     + simpl. rewrite Hdur, Hreq. reflexivity.
     + exfalso; apply L'; rewrite <- Hcan; exact L.
     + exfalso; apply L; rewrite Hcan; exact L'.
-    + eapply tdres_eq_trans.
-      * apply (IH _ (fc' + len / req' * (1 - fc')) _ (dur' + len / req' * req')).
-        -- rewrite Qred_correct, Hcan, Hfc. reflexivity.
-        -- rewrite Qred_correct, Hcan, Hreq, Hdur. reflexivity.
-      * destruct (wk vals (fc' + len / req' * (1 - fc')) r); simpl; auto. ring.
+    + destruct (is_nil r) eqn:En; cbn [orb].
+      * simpl. rewrite Hdur, Hreq. reflexivity.
+      * eapply tdres_eq_trans.
+        -- apply (IH _ (fc' + len / req' * (1 - fc')) _ (dur' + len / req' * req')).
+           ++ rewrite Qred_correct, Hcan, Hfc. reflexivity.
+           ++ rewrite Qred_correct, Hcan, Hreq, Hdur. reflexivity.
+        -- destruct (wk vals (fc' + len / req' * (1 - fc')) r); simpl; auto. ring.
 Qed.
 
 (** ** Characterisation of one step *)
@@ -164,34 +173,40 @@ Qed.
 Lemma req_pos fc d : fc < 1 -> 0 < d -> 0 < (1 - fc) * d.
 Proof. intros H1 H2. apply Qmult_lt_0_compat; lra. Qed.
 
-Lemma hstep_zero vals fc len k cont : vals k == 0 -> hstep vals fc len k cont = Val 0.
+Lemma req_nonneg fc d : fc < 1 -> 0 <= d -> 0 <= (1 - fc) * d.
+Proof. intros H1 H2. apply Qmult_le_0_compat; lra. Qed.
+
+Lemma hstep_zero vals fc len k lst cont : vals k == 0 -> hstep vals fc len k lst cont = Val 0.
 Proof.
   intros H. unfold hstep.
   destruct (Qeq_bool_spec ((1 - fc) * vals k) 0) as [E|E]; auto.
   exfalso; apply E. rewrite H. ring.
 Qed.
 
-Lemma hstep_fin vals fc len k cont :
-  fc < 1 -> 0 < vals k -> (1 - fc) * vals k <= len ->
-  hstep vals fc len k cont = Val ((1 - fc) * vals k).
+(* the trip ends in this element: there is room for what is left of it, or
+   the element is the last one *)
+Lemma hstep_fin vals fc len k lst cont :
+  fc < 1 -> 0 < vals k -> (1 - fc) * vals k <= len \/ lst = true ->
+  hstep vals fc len k lst cont = Val ((1 - fc) * vals k).
 Proof.
   intros Hfc Hd Hle. unfold hstep.
   pose proof (req_pos fc (vals k) Hfc Hd) as Hreq.
   destruct (Qeq_bool_spec ((1 - fc) * vals k) 0) as [E|E]; [lra|].
-  destruct (Qle_bool_spec 1 (len / ((1 - fc) * vals k))) as [L|L]; auto.
+  destruct (Qle_bool_spec 1 (len / ((1 - fc) * vals k))) as [L|L]; [reflexivity|].
+  destruct Hle as [Hle| ->]; [|reflexivity].
   exfalso; apply L. apply Qle_shift_div_l; lra.
 Qed.
 
 Lemma hstep_over vals fc len k cont :
   fc < 1 -> 0 < vals k -> len < (1 - fc) * vals k ->
-  hstep vals fc len k cont =
+  hstep vals fc len k false cont =
   tdres_add (len / ((1 - fc) * vals k) * ((1 - fc) * vals k))
             (cont (fc + len / ((1 - fc) * vals k) * (1 - fc))).
 Proof.
   intros Hfc Hd Hlt. unfold hstep.
   pose proof (req_pos fc (vals k) Hfc Hd) as Hreq.
   destruct (Qeq_bool_spec ((1 - fc) * vals k) 0) as [E|E]; [lra|].
-  destruct (Qle_bool_spec 1 (len / ((1 - fc) * vals k))) as [L|L]; auto.
+  destruct (Qle_bool_spec 1 (len / ((1 - fc) * vals k))) as [L|L]; [|reflexivity].
   exfalso.
   assert (len / ((1 - fc) * vals k) < 1) by (apply Qlt_shift_div_r; lra).
   lra.
@@ -213,36 +228,56 @@ Lemma div_nonneg len d : 0 <= len -> 0 < d -> 0 <= len / d.
 Proof. intros H1 H2. apply Qle_shift_div_l; lra. Qed.
 
 Lemma walkH_over vals fc len k r :
-  fc < 1 -> 0 < vals k -> len < (1 - fc) * vals k ->
+  r <> [] -> fc < 1 -> 0 < vals k -> len < (1 - fc) * vals k ->
   tdres_eq (walkH vals fc len k r) (tdres_add len (wk vals (fc + len / vals k) r)).
 Proof.
-  intros Hfc Hd Hlt. unfold walkH. rewrite hstep_over by assumption.
+  intros Hne Hfc Hd Hlt. unfold walkH. rewrite (is_nil_false r Hne).
+  rewrite hstep_over by assumption.
   apply tdres_add_eq.
   - apply over_len; assumption.
   - apply wk_morph. apply over_fc; assumption.
 Qed.
 
+(* in the last element the trip always ends: what is left of it is driven at
+   this element's duration, however little of the element is left (or even if
+   the position is beyond its end) *)
+Lemma walkH_inv_last vals fc len k x :
+  vals_ok vals -> fc < 1 -> walkH vals fc len k [] = Val x -> x == (1 - fc) * vals k.
+Proof.
+  intros Hv Hfc H. unfold walkH in H. cbn [is_nil] in H.
+  destruct (Qlt_le_dec 0 (vals k)) as [Hd|Hd].
+  - rewrite hstep_fin in H by (try assumption; right; reflexivity).
+    injection H as H. rewrite H. reflexivity.
+  - assert (Hz : vals k == 0) by (pose proof (Hv k); lra).
+    rewrite hstep_zero in H by assumption.
+    injection H as H. rewrite <- H, Hz. ring.
+Qed.
+
+(* in an element that has a successor *)
 Lemma walkH_inv vals fc len k r x :
-  vals_ok vals -> fc < 1 -> walkH vals fc len k r = Val x ->
+  vals_ok vals -> fc < 1 -> r <> [] -> walkH vals fc len k r = Val x ->
   (vals k == 0 /\ x == 0) \/
   (0 < vals k /\ (1 - fc) * vals k <= len /\ x == (1 - fc) * vals k) \/
   (0 < vals k /\ len < (1 - fc) * vals k /\
    exists y, wk vals (fc + len / vals k) r = Val y /\ x == len + y).
 Proof.
-  intros Hv Hfc H.
+  intros Hv Hfc Hne H.
   destruct (Qlt_le_dec 0 (vals k)) as [Hd|Hd].
   - right. destruct (Qlt_le_dec len ((1 - fc) * vals k)) as [Hl|Hl].
     + right. split; [assumption|]. split; [assumption|].
-      pose proof (walkH_over vals fc len k r Hfc Hd Hl) as Ho.
+      pose proof (walkH_over vals fc len k r Hne Hfc Hd Hl) as Ho.
       rewrite H in Ho.
       destruct (wk vals (fc + len / vals k) r) as [y|]; simpl in Ho; [|tauto].
       exists y. split; auto.
-    + left. unfold walkH in H. rewrite hstep_fin in H by assumption.
+    + left. unfold walkH in H. rewrite hstep_fin in H by (try assumption; left; assumption).
       injection H as H. split; [assumption|]. split; [assumption|]. rewrite H. reflexivity.
   - left. assert (Hz : vals k == 0) by (pose proof (Hv k); lra).
     unfold walkH in H. rewrite hstep_zero in H by assumption.
     injection H as H. split; [assumption|]. rewrite <- H. reflexivity.
 Qed.
+
+Lemma cons_ne {A} (a : A) l : a :: l <> [].
+Proof. discriminate. Qed.
 
 (** ** Non-negativity *)
 
@@ -254,22 +289,32 @@ Proof.
   induction l as [|e r IH]; intros Hl fc x Hfc H; [discriminate|].
   inversion Hl as [|? ? Hle Hlr]; subst.
   rewrite wk_cons in H.
-  destruct (walkH_inv _ _ _ _ _ _ Hv Hfc H) as [[_ Hx]|[(Hd & _ & Hx)|(Hd & Hlt & y & Hy & Hx)]].
-  - lra.
-  - pose proof (req_pos _ _ Hfc Hd). lra.
-  - assert (0 <= y) by (eapply (IH Hlr); [|exact Hy]; apply over_fc_lt; assumption).
-    lra.
+  destruct r as [|e' r'].
+  - pose proof (walkH_inv_last _ _ _ _ _ Hv Hfc H) as Hx.
+    pose proof (req_nonneg fc _ Hfc (Hv (e_expr e))). lra.
+  - destruct (walkH_inv _ _ _ _ _ _ Hv Hfc (cons_ne e' r') H)
+      as [[_ Hx]|[(Hd & _ & Hx)|(Hd & Hlt & y & Hy & Hx)]].
+    + lra.
+    + pose proof (req_pos _ _ Hfc Hd). lra.
+    + assert (0 <= y) by (eapply (IH Hlr); [|exact Hy]; apply over_fc_lt; assumption).
+      lra.
 Qed.
 
+(* [len] may be negative in the last element only (departure after its end) *)
 Lemma walkH_nonneg vals (Hv : vals_ok vals) fc len k r x :
-  lens_ok r -> 0 <= len -> fc < 1 -> walkH vals fc len k r = Val x -> 0 <= x.
+  lens_ok r -> r = [] \/ 0 <= len -> fc < 1 -> walkH vals fc len k r = Val x -> 0 <= x.
 Proof.
   intros Hlr Hlen Hfc H.
-  destruct (walkH_inv _ _ _ _ _ _ Hv Hfc H) as [[_ Hx]|[(Hd & _ & Hx)|(Hd & Hlt & y & Hy & Hx)]].
-  - lra.
-  - pose proof (req_pos _ _ Hfc Hd). lra.
-  - assert (0 <= y) by (eapply (wk_nonneg vals Hv r Hlr); [|exact Hy]; apply over_fc_lt; assumption).
-    lra.
+  destruct r as [|e' r'].
+  - pose proof (walkH_inv_last _ _ _ _ _ Hv Hfc H) as Hx.
+    pose proof (req_nonneg fc _ Hfc (Hv k)). lra.
+  - destruct Hlen as [C|Hlen]; [discriminate|].
+    destruct (walkH_inv _ _ _ _ _ _ Hv Hfc (cons_ne e' r') H)
+      as [[_ Hx]|[(Hd & _ & Hx)|(Hd & Hlt & y & Hy & Hx)]].
+    + lra.
+    + pose proof (req_pos _ _ Hfc Hd). lra.
+    + assert (0 <= y) by (eapply (wk_nonneg vals Hv _ Hlr); [|exact Hy]; apply over_fc_lt; assumption).
+      lra.
 Qed.
 
 (** ** Contiguous lists of elements *)
@@ -309,44 +354,45 @@ Proof.
 Qed.
 
 (** ** Monotonicity (FIFO) inside one element and beyond:
-    trip 1 is at an earlier position with more of the trip done. *)
+    trip 1 is at an earlier position with more of the trip done.
+    In the last element the positions may be beyond its end. *)
 
 Lemma walkH_mono vals (Hv : vals_ok vals) r : forall e, contig (e :: r) ->
   forall k fc1 fc2 p1 p2 x1 x2,
-  fc2 <= fc1 -> fc1 < 1 -> p1 <= p2 -> p2 <= inject_Z (e_end e) ->
+  fc2 <= fc1 -> fc1 < 1 -> p1 <= p2 -> r = [] \/ p2 <= inject_Z (e_end e) ->
   walkH vals fc1 (inject_Z (e_end e) - p1) k r = Val x1 ->
   walkH vals fc2 (inject_Z (e_end e) - p2) k r = Val x2 ->
   p1 + x1 <= p2 + x2.
 Proof.
   induction r as [|e' r' IH]; intros e Hc k fc1 fc2 p1 p2 x1 x2 Hfc Hfc1 Hp Hp2 H1 H2;
   assert (Hfc2 : fc2 < 1) by lra;
-  pose proof (contig_lens _ (contig_tail _ _ Hc)) as Hlr;
-  set (E := inject_Z (e_end e)) in *;
-  destruct (walkH_inv _ _ _ _ _ _ Hv Hfc1 H1) as [[Hd1 Hx1]|[(Hd1 & Hl1 & Hx1)|(Hd1 & Hl1 & y1 & Hy1 & Hx1)]];
-  destruct (walkH_inv _ _ _ _ _ _ Hv Hfc2 H2) as [[Hd2 Hx2]|[(Hd2 & Hl2 & Hx2)|(Hd2 & Hl2 & y2 & Hy2 & Hx2)]];
-  try lra;
-  try (assert (Hmul : (1 - fc1) * vals k <= (1 - fc2) * vals k)
-         by (apply Qmult_le_compat_r; lra)).
+  assert (Hmul : (1 - fc1) * vals k <= (1 - fc2) * vals k)
+    by (apply Qmult_le_compat_r; [lra|apply Hv]).
   (* r = [] *)
-  - lra.
-  - discriminate.
-  - lra.
-  - discriminate.
+  - pose proof (walkH_inv_last _ _ _ _ _ Hv Hfc1 H1) as Hx1.
+    pose proof (walkH_inv_last _ _ _ _ _ Hv Hfc2 H2) as Hx2.
+    lra.
   (* r = e' :: r' *)
-  - lra.
-  - assert (0 <= y2)
-      by (eapply (wk_nonneg vals Hv _ Hlr); [|exact Hy2]; apply over_fc_lt; assumption).
-    lra.
-  - lra.
-  - rewrite wk_cons in Hy1, Hy2. unfold elen in Hy1, Hy2.
-    assert (Hle : inject_Z (e_start e') + y1 <= inject_Z (e_start e') + y2).
-    { eapply (IH e' (contig_tail _ _ Hc) _ _ _ _ _ _ _); [| | | |exact Hy1|exact Hy2].
-      - assert ((E - p2) / vals k <= (E - p1) / vals k) by (apply div_le_mono; lra). lra.
-      - apply over_fc_lt; assumption.
-      - lra.
-      - pose proof (contig_hd _ _ (contig_tail _ _ Hc)) as Hh.
-        rewrite Zle_Qle in Hh. exact Hh. }
-    lra.
+  - destruct Hp2 as [C|Hp2]; [discriminate|].
+    pose proof (contig_lens _ (contig_tail _ _ Hc)) as Hlr.
+    set (E := inject_Z (e_end e)) in *.
+    destruct (walkH_inv _ _ _ _ _ _ Hv Hfc1 (cons_ne e' r') H1)
+      as [[Hd1 Hx1]|[(Hd1 & Hl1 & Hx1)|(Hd1 & Hl1 & y1 & Hy1 & Hx1)]];
+    destruct (walkH_inv _ _ _ _ _ _ Hv Hfc2 (cons_ne e' r') H2)
+      as [[Hd2 Hx2]|[(Hd2 & Hl2 & Hx2)|(Hd2 & Hl2 & y2 & Hy2 & Hx2)]];
+    try lra.
+    + assert (0 <= y2)
+        by (eapply (wk_nonneg vals Hv _ Hlr); [|exact Hy2]; apply over_fc_lt; assumption).
+      lra.
+    + rewrite wk_cons in Hy1, Hy2. unfold elen in Hy1, Hy2.
+      assert (Hle : inject_Z (e_start e') + y1 <= inject_Z (e_start e') + y2).
+      { eapply (IH e' (contig_tail _ _ Hc) _ _ _ _ _ _ _); [| | | |exact Hy1|exact Hy2].
+        - assert ((E - p2) / vals k <= (E - p1) / vals k) by (apply div_le_mono; lra). lra.
+        - apply over_fc_lt; assumption.
+        - lra.
+        - right. pose proof (contig_hd _ _ (contig_tail _ _ Hc)) as Hh.
+          rewrite Zle_Qle in Hh. exact Hh. }
+      lra.
 Qed.
 
 Lemma contig_app_r pre l : contig (pre ++ l) -> contig l.
@@ -363,11 +409,12 @@ Proof.
     pose proof (IH _ _ _ Ht). lia.
 Qed.
 
-(** ** FIFO for departures in different elements *)
+(** ** FIFO for departures in different elements (the second one possibly
+    beyond the end of the last element) *)
 
 Lemma fifo_suffix vals (Hv : vals_ok vals) mid : forall e k1 fc1 p1 e2 r2 v2 x1 x2,
   contig (e :: mid ++ e2 :: r2) -> 0 <= fc1 -> fc1 < 1 -> p1 <= inject_Z (e_end e) ->
-  inject_Z (e_start e2) <= v2 -> v2 <= inject_Z (e_end e2) ->
+  inject_Z (e_start e2) <= v2 -> r2 = [] \/ v2 <= inject_Z (e_end e2) ->
   walkH vals fc1 (inject_Z (e_end e) - p1) k1 (mid ++ e2 :: r2) = Val x1 ->
   walkH vals 0 (inject_Z (e_end e2) - v2) (e_expr e2) r2 = Val x2 ->
   p1 + x1 <= v2 + x2.
@@ -377,8 +424,13 @@ Proof.
   assert (Hc2 : contig (e2 :: r2)) by (match type of Hc with contig (e :: ?l ++ _) => apply (contig_app_r (e :: l)) end; exact Hc);
   assert (Hx2 : 0 <= x2)
     by (eapply (walkH_nonneg vals Hv); [| | |exact H2];
-        [apply contig_lens; eapply contig_tail; exact Hc2|lra|lra]);
-  destruct (walkH_inv _ _ _ _ _ _ Hv Hfc1 H1) as [[Hd1 Hx1]|[(Hd1 & Hl1 & Hx1)|(Hd1 & Hl1 & y1 & Hy1 & Hx1)]];
+        [apply contig_lens; eapply contig_tail; exact Hc2
+        |destruct Hv2e as [Hv2e|Hv2e]; [left; exact Hv2e|right; lra]
+        |lra]);
+  match type of H1 with walkH _ _ _ _ ?l = _ =>
+    assert (Hne : l <> []) by (intros C; apply app_eq_nil in C; destruct C as [_ C]; discriminate C)
+  end;
+  destruct (walkH_inv _ _ _ _ _ _ Hv Hfc1 Hne H1) as [[Hd1 Hx1]|[(Hd1 & Hl1 & Hx1)|(Hd1 & Hl1 & y1 & Hy1 & Hx1)]];
   try lra;
   assert (Hfc' : fc1 + (inject_Z (e_end e) - p1) / vals k1 < 1) by (apply over_fc_lt; assumption);
   assert (Hfc'0 : 0 <= fc1 + (inject_Z (e_end e) - p1) / vals k1)
@@ -386,18 +438,16 @@ Proof.
   - simpl app in *. rewrite wk_cons in Hy1. unfold elen in Hy1.
     pose proof (contig_link _ _ _ Hc) as Hlk.
     assert (inject_Z (e_start e2) + y1 <= v2 + x2).
-    { eapply (walkH_mono vals Hv r2 e2 Hc2); [| | | |exact Hy1|exact H2]; try lra. }
+    { eapply (walkH_mono vals Hv r2 e2 Hc2); [| | | |exact Hy1|exact H2]; try lra. exact Hv2e. }
     rewrite Hlk in *. lra.
   - simpl app in *. rewrite wk_cons in Hy1. unfold elen in Hy1.
     pose proof (contig_link _ _ _ Hc) as Hlk.
     pose proof (contig_tail _ _ Hc) as Ht.
     pose proof (contig_hd _ _ Ht) as Hh. rewrite Zle_Qle in Hh.
     assert (inject_Z (e_start m) + y1 <= v2 + x2).
-    { eapply (IH m _ _ _ e2 r2 v2 y1 x2 Ht); [| | | | |exact Hy1|exact H2]; try lra. }
+    { eapply (IH m _ _ _ e2 r2 v2 y1 x2 Ht); [| | | | |exact Hy1|exact H2]; try lra. exact Hv2e. }
     rewrite Hlk in *. lra.
 Qed.
-
-(** ** A finished trip arrives before the end of the last element *)
 
 Definition dflt : elem := mkElem 0 0 0.
 
@@ -412,64 +462,32 @@ Proof.
     pose proof (IH _ Ht). lia.
 Qed.
 
-Lemma walkH_arrival_le vals (Hv : vals_ok vals) r : forall e k fc p x,
-  contig (e :: r) -> fc < 1 -> p <= inject_Z (e_end e) ->
-  walkH vals fc (inject_Z (e_end e) - p) k r = Val x ->
-  p + x <= inject_Z (e_end (last (e :: r) dflt)).
+(** ** Totality: the walk never runs off a non-empty list, because the last
+    element always finishes the trip *)
+
+Lemma hstep_total vals fc len k lst cont :
+  (lst = false -> forall fc', exists y, cont fc' = Val y) ->
+  exists x, hstep vals fc len k lst cont = Val x.
 Proof.
-  induction r as [|e' r' IH]; intros e k fc p x Hc Hfc Hp H;
-  pose proof (contig_last_le _ _ Hc) as Hll; rewrite Zle_Qle in Hll;
-  destruct (walkH_inv _ _ _ _ _ _ Hv Hfc H) as [[Hd Hx]|[(Hd & Hl & Hx)|(Hd & Hl & y & Hy & Hx)]];
-  try lra.
-  - discriminate.
-  - change (last (e :: e' :: r') dflt) with (last (e' :: r') dflt) in *.
-    rewrite wk_cons in Hy. unfold elen in Hy.
-    pose proof (contig_link _ _ _ Hc) as Hlk.
-    pose proof (contig_tail _ _ Hc) as Ht.
-    pose proof (contig_hd _ _ Ht) as Hh. rewrite Zle_Qle in Hh.
-    assert (inject_Z (e_start e') + y <= inject_Z (e_end (last (e' :: r') dflt))).
-    { eapply (IH e' _ _ _ _ Ht); [| |exact Hy]; [apply over_fc_lt; assumption|lra]. }
-    rewrite Hlk in *. lra.
+  intros Hc. unfold hstep.
+  destruct (Qeq_bool ((1 - fc) * vals k) 0); [eexists; reflexivity|].
+  destruct (Qle_bool 1 (len / ((1 - fc) * vals k))); [eexists; reflexivity|].
+  destruct lst; [eexists; reflexivity|]. cbn [orb].
+  destruct (Hc eq_refl (fc + len / ((1 - fc) * vals k) * (1 - fc))) as [y Hy].
+  rewrite Hy. eexists; reflexivity.
 Qed.
 
-(** ** Totality: the trip ends if there is room for the longest duration *)
-
-Lemma scale_len len d B : 0 <= len -> 0 < d -> d <= B -> len <= len / d * B.
+Lemma wk_total vals l : l <> [] -> forall fc, exists x, wk vals fc l = Val x.
 Proof.
-  intros H1 H2 H3.
-  assert (E : len == len / d * d) by (field; lra).
-  assert (0 <= len / d) by (apply div_nonneg; assumption).
-  assert (len / d * d <= len / d * B).
-  { rewrite (Qmult_comm (len / d) d), (Qmult_comm (len / d) B).
-    apply Qmult_le_compat_r; assumption. }
-  lra.
+  induction l as [|e r IH]; intros Hne fc; [congruence|].
+  cbn [wk]. apply hstep_total. intros Hn fc'. apply IH.
+  destruct r; [discriminate Hn|discriminate].
 Qed.
 
-Lemma walkH_total vals (Hv : vals_ok vals) B (HB : forall k, vals k <= B) r : forall e k fc p,
-  contig (e :: r) -> fc < 1 -> p <= inject_Z (e_end e) ->
-  p + (1 - fc) * B <= inject_Z (e_end (last (e :: r) dflt)) ->
-  exists x, walkH vals fc (inject_Z (e_end e) - p) k r = Val x.
+Lemma walkH_total vals fc len k r : exists x, walkH vals fc len k r = Val x.
 Proof.
-  induction r as [|e' r' IH]; intros e k fc p Hc Hfc Hp Hroom;
-  (destruct (Qlt_le_dec 0 (vals k)) as [Hd|Hd];
-   [|exists 0; apply hstep_zero; pose proof (Hv k); lra]);
-  (destruct (Qlt_le_dec (inject_Z (e_end e) - p) ((1 - fc) * vals k)) as [Hl|Hl];
-   [|eexists; apply hstep_fin; assumption]);
-  assert (Hmul : vals k * (1 - fc) <= B * (1 - fc)) by (apply Qmult_le_compat_r; [apply HB|lra]).
-  - simpl in Hroom. lra.
-  - change (last (e :: e' :: r') dflt) with (last (e' :: r') dflt) in *.
-    pose proof (walkH_over vals fc _ k (e' :: r') Hfc Hd Hl) as Ho.
-    pose proof (contig_link _ _ _ Hc) as Hlk.
-    pose proof (contig_tail _ _ Hc) as Ht.
-    pose proof (contig_hd _ _ Ht) as Hh. rewrite Zle_Qle in Hh.
-    set (len := inject_Z (e_end e) - p) in *.
-    assert (Hs : len <= len / vals k * B) by (apply scale_len; [unfold len; lra|assumption|apply HB]).
-    destruct (IH e' (e_expr e') (fc + len / vals k) (inject_Z (e_start e')) Ht) as [x' Hx'].
-    + apply over_fc_lt; assumption.
-    + exact Hh.
-    + rewrite <- Hlk. unfold len in *. lra.
-    + rewrite wk_cons in Ho. unfold elen in Ho. rewrite Hx' in Ho. simpl in Ho.
-      destruct (tdres_eq_val _ _ Ho) as (y & Hy & _). exists y. exact Hy.
+  unfold walkH. apply hstep_total. intros Hn fc'. apply wk_total.
+  destruct r; [discriminate Hn|discriminate].
 Qed.
 
 (** ** value_at_value on the located element *)
@@ -493,16 +511,20 @@ Proof.
       { assert (len == len / d * d) by (field; lra).
         assert (1 * d <= len / d * d) by (apply Qmult_le_compat_r; lra). lra. }
       unfold walkH. fold d in Hle. unfold d in Hle.
-      rewrite hstep_fin by assumption. simpl. fold d. ring.
+      rewrite hstep_fin by (try assumption; left; assumption). simpl. fold d. ring.
     + rewrite Qred_correct in L.
-      assert (Hlt : len < (1 - 0) * d).
-      { destruct (Qlt_le_dec len ((1 - 0) * d)) as [|C]; [assumption|].
-        exfalso; apply L. apply Qle_shift_div_l; lra. }
-      apply tdres_eq_trans with (tdres_add len (wk vals (0 + len / d) rest)).
-      * apply walk_wk.
-        -- rewrite Qred_correct. ring.
-        -- rewrite Qred_correct, Qred_correct. field. lra.
-      * apply tdres_eq_sym. apply walkH_over; assumption.
+      destruct (is_nil rest) eqn:En; cbn [orb].
+      * unfold walkH. rewrite En.
+        rewrite hstep_fin by (try assumption; right; reflexivity). simpl. fold d. ring.
+      * assert (Hne : rest <> []) by (intros ->; discriminate En).
+        assert (Hlt : len < (1 - 0) * d).
+        { destruct (Qlt_le_dec len ((1 - 0) * d)) as [|C]; [assumption|].
+          exfalso; apply L. apply Qle_shift_div_l; lra. }
+        apply tdres_eq_trans with (tdres_add len (wk vals (0 + len / d) rest)).
+        -- apply walk_wk.
+           ++ rewrite Qred_correct. ring.
+           ++ rewrite Qred_correct, Qred_correct. field. lra.
+        -- apply tdres_eq_sym. apply walkH_over; assumption.
 Qed.
 
 (* ------------------------------------------------------------------ *)
@@ -1179,18 +1201,43 @@ Proof.
   rewrite H in Hs. apply tdres_eq_val_l in Hs. exact Hs.
 Qed.
 
+(* the located element for any departure: after max_time it is the last
+   element (which the departure is then beyond) *)
+Lemma get_element_any t v : wf_td t -> 0 <= v ->
+  exists pre el rest, td_elems t = pre ++ el :: rest /\
+    get_element t v = Some (el :: rest) /\
+    inject_Z (e_start el) <= v /\ (v < inject_Z (e_end el) \/ rest = []).
+Proof.
+  intros Hwf Hv0.
+  destruct (Qlt_le_dec v (inject_Z max_time)) as [Hlt|Hge].
+  - destruct (get_element_spec t v Hwf Hv0 Hlt) as (pre & el & rest & Hl & Hg & Hs & He).
+    exists pre, el, rest. auto.
+  - destruct (wf_last_elem t Hwf) as (init & Hinit).
+    exists init, (mkElem (td_endstart t) max_time 0), [].
+    split; [exact Hinit|]. split; [apply get_element_late; assumption|].
+    split; [|right; reflexivity].
+    assert (Hlok : elem_ok (mkElem (td_endstart t) max_time 0))
+      by (apply (elem_ok_in t); [exact Hwf|rewrite Hinit; apply in_or_app; right; left; reflexivity]).
+    destruct Hlok as [(H2 & _) _]. simpl in H2. rewrite Zle_Qle in H2. simpl. lra.
+Qed.
+
+(* a trip that starts in the last element takes that element's duration *)
+Lemma vav_in_last t vals v el x :
+  wf_td t -> vals_ok vals -> get_element t v = Some [el] ->
+  value_at_value t vals v = Val x -> x == vals (e_expr el).
+Proof.
+  intros Hwf Hv Hg H.
+  destruct (vav_located t vals v _ _ x Hwf Hv Hg H) as (x' & Hw & Hx).
+  assert (H01 : 0 < 1) by lra.
+  pose proof (walkH_inv_last _ _ _ _ _ Hv H01 Hw) as Hx'. lra.
+Qed.
+
 Lemma vav_late t vals v x :
   wf_td t -> vals_ok vals -> inject_Z max_time <= v ->
-  value_at_value t vals v = Val x -> x == 0 /\ vals 0%nat == 0.
+  value_at_value t vals v = Val x -> x == vals 0%nat.
 Proof.
   intros Hwf Hv Hlate H.
-  destruct (vav_located t vals v _ _ x Hwf Hv (get_element_late t v Hwf Hlate) H) as (x' & Hw & Hx).
-  simpl in Hw.
-  assert (H01 : 0 < 1) by lra.
-  destruct (walkH_inv _ _ _ _ _ _ Hv H01 Hw) as [[Hd Hx']|[(Hd & Hl & Hx')|(Hd & Hl & y & Hy & Hx')]].
-  - split; [lra|exact Hd].
-  - exfalso. lra.
-  - discriminate.
+  apply (vav_in_last t vals v _ x Hwf Hv (get_element_late t v Hwf Hlate) H).
 Qed.
 
 Lemma app_eq_cases {A} (p1 : list A) : forall l1 p2 l2, p1 ++ l1 = p2 ++ l2 ->
@@ -1227,29 +1274,15 @@ Lemma nonneg_wf t vals v x :
   wf_td t -> vals_ok vals -> 0 <= v -> value_at_value t vals v = Val x -> 0 <= x.
 Proof.
   intros Hwf Hv Hv0 H.
-  destruct (Qlt_le_dec v (inject_Z max_time)) as [Hlt|Hge].
-  - destruct (get_element_spec t v Hwf Hv0 Hlt) as (pre & el & rest & Hl & Hg & Hs & He).
-    destruct (vav_located _ _ _ _ _ _ Hwf Hv Hg H) as (x' & Hw & Hx).
-    pose proof (wf_contig _ Hwf) as Hct. rewrite Hl in Hct. apply contig_app_r in Hct.
-    assert (0 <= x').
-    { eapply (walkH_nonneg vals Hv); [| | |exact Hw];
-        [apply contig_lens; eapply contig_tail; exact Hct|lra|lra]. }
-    lra.
-  - destruct (vav_late _ _ _ _ Hwf Hv Hge H). lra.
-Qed.
-
-Lemma arrival_wf t vals v x :
-  wf_td t -> vals_ok vals -> 0 <= v -> v < inject_Z max_time ->
-  value_at_value t vals v = Val x -> v + x <= inject_Z max_time.
-Proof.
-  intros Hwf Hv Hv0 Hlt H.
-  destruct (get_element_spec t v Hwf Hv0 Hlt) as (pre & el & rest & Hl & Hg & Hs & He).
+  destruct (get_element_any t v Hwf Hv0) as (pre & el & rest & Hl & Hg & Hs & He).
   destruct (vav_located _ _ _ _ _ _ Hwf Hv Hg H) as (x' & Hw & Hx).
   pose proof (wf_contig _ Hwf) as Hct. rewrite Hl in Hct. apply contig_app_r in Hct.
-  assert (H01 : 0 < 1) by lra.
-  assert (Hp : v <= inject_Z (e_end el)) by lra.
-  pose proof (walkH_arrival_le vals Hv rest el _ 0 v x' Hct H01 Hp Hw) as Ha.
-  destruct (wf_last _ Hwf) as [Hle _]. rewrite Hl, last_app_cons in Hle. rewrite Hle in Ha. lra.
+  assert (0 <= x').
+  { eapply (walkH_nonneg vals Hv); [| | |exact Hw];
+      [apply contig_lens; eapply contig_tail; exact Hct
+      |destruct He as [He|He]; [right; lra|left; exact He]
+      |lra]. }
+  lra.
 Qed.
 
 Lemma fifo_wf t vals v1 v2 x1 x2 :
@@ -1259,33 +1292,36 @@ Lemma fifo_wf t vals v1 v2 x1 x2 :
 Proof.
   intros Hwf Hv Hv0 Hle H1 H2.
   assert (H01 : 0 < 1) by lra. assert (H00 : 0 <= 0) by lra.
-  destruct (Qlt_le_dec v2 (inject_Z max_time)) as [Hlt2|Hge2].
-  - assert (Hlt1 : v1 < inject_Z max_time) by lra.
-    assert (Hv20 : 0 <= v2) by lra.
-    destruct (get_element_spec t v1 Hwf Hv0 Hlt1) as (pre1 & el1 & rest1 & Hl1 & Hg1 & Hs1 & He1).
-    destruct (get_element_spec t v2 Hwf Hv20 Hlt2) as (pre2 & el2 & rest2 & Hl2 & Hg2 & Hs2 & He2).
-    destruct (vav_located _ _ _ _ _ _ Hwf Hv Hg1 H1) as (x1' & Hw1 & Hx1).
-    destruct (vav_located _ _ _ _ _ _ Hwf Hv Hg2 H2) as (x2' & Hw2 & Hx2).
-    pose proof (wf_contig _ Hwf) as Hct.
-    assert (Hct1 : contig (el1 :: rest1)) by (rewrite Hl1 in Hct; apply contig_app_r in Hct; exact Hct).
-    assert (Hct2 : contig (el2 :: rest2)) by (rewrite Hl2 in Hct; apply contig_app_r in Hct; exact Hct).
-    assert (Heq : pre1 ++ el1 :: rest1 = pre2 ++ el2 :: rest2) by congruence.
-    assert (Hgoal : v1 + x1' <= v2 + x2'); [|lra].
-    destruct (app_eq_cases _ _ _ _ Heq) as [[m Hm]|[m Hm]].
-    + destruct m as [|a m'].
-      * simpl in Hm. injection Hm as <- <-.
-        eapply (walkH_mono vals Hv rest1 el1 Hct1); [| | | |exact Hw1|exact Hw2]; lra.
-      * simpl in Hm. injection Hm as <- ->.
-        eapply (fifo_suffix vals Hv m' el1 _ 0 v1 el2 rest2 v2 x1' x2' Hct1); try lra; [exact Hw1|exact Hw2].
-    + destruct m as [|a m'].
-      * simpl in Hm. injection Hm as <- <-.
-        eapply (walkH_mono vals Hv rest2 el2 Hct2); [| | | |exact Hw1|exact Hw2]; lra.
-      * exfalso. simpl in Hm. injection Hm as <- ->.
-        pose proof (contig_app_le _ _ _ _ Hct2) as Hc. rewrite Zle_Qle in Hc. lra.
-  - destruct (vav_late _ _ _ _ Hwf Hv Hge2 H2) as [Hx2 _].
-    destruct (Qlt_le_dec v1 (inject_Z max_time)) as [Hlt1|Hge1].
-    + pose proof (arrival_wf _ _ _ _ Hwf Hv Hv0 Hlt1 H1). lra.
-    + destruct (vav_late _ _ _ _ Hwf Hv Hge1 H1) as [Hx1 _]. lra.
+  assert (Hv20 : 0 <= v2) by lra.
+  destruct (get_element_any t v1 Hwf Hv0) as (pre1 & el1 & rest1 & Hl1 & Hg1 & Hs1 & He1).
+  destruct (get_element_any t v2 Hwf Hv20) as (pre2 & el2 & rest2 & Hl2 & Hg2 & Hs2 & He2).
+  destruct (vav_located _ _ _ _ _ _ Hwf Hv Hg1 H1) as (x1' & Hw1 & Hx1).
+  destruct (vav_located _ _ _ _ _ _ Hwf Hv Hg2 H2) as (x2' & Hw2 & Hx2).
+  pose proof (wf_contig _ Hwf) as Hct.
+  assert (Hct1 : contig (el1 :: rest1)) by (rewrite Hl1 in Hct; apply contig_app_r in Hct; exact Hct).
+  assert (Hct2 : contig (el2 :: rest2)) by (rewrite Hl2 in Hct; apply contig_app_r in Hct; exact Hct).
+  assert (Heq : pre1 ++ el1 :: rest1 = pre2 ++ el2 :: rest2) by congruence.
+  assert (Hgoal : v1 + x1' <= v2 + x2'); [|lra].
+  destruct (app_eq_cases _ _ _ _ Heq) as [[m Hm]|[m Hm]].
+  + destruct m as [|a m'].
+    * (* same element *)
+      simpl in Hm. injection Hm as <- <-.
+      eapply (walkH_mono vals Hv rest1 el1 Hct1); [| | | |exact Hw1|exact Hw2]; try lra.
+      destruct He2 as [He2|He2]; [right; lra|left; exact He2].
+    * (* v2 in a later element *)
+      simpl in Hm. injection Hm as <- ->.
+      destruct He1 as [He1|He1]; [|destruct m'; discriminate He1].
+      eapply (fifo_suffix vals Hv m' el1 _ 0 v1 el2 rest2 v2 x1' x2' Hct1); try lra;
+        [|exact Hw1|exact Hw2].
+      destruct He2 as [He2|He2]; [right; lra|left; exact He2].
+  + destruct m as [|a m'].
+    * simpl in Hm. injection Hm as <- <-.
+      eapply (walkH_mono vals Hv rest2 el2 Hct2); [| | | |exact Hw1|exact Hw2]; try lra.
+      destruct He2 as [He2|He2]; [right; lra|left; exact He2].
+    * (* v2 in an earlier element: impossible *)
+      exfalso. simpl in Hm. injection Hm as <- ->.
+      destruct He2 as [He2|He2]; [|destruct m'; discriminate He2].
+      pose proof (contig_app_le _ _ _ _ Hct2) as Hc. rewrite Zle_Qle in Hc. lra.
 Qed.
 
 Lemma inside_wf t vals s e k v x :
@@ -1302,7 +1338,10 @@ Proof.
     rewrite Hl. apply in_or_app; right; left; reflexivity. }
   subst el. simpl in Hw.
   assert (H01 : 0 < 1) by lra.
-  destruct (walkH_inv _ _ _ _ _ _ Hv H01 Hw) as [[Hd Hx']|[(Hd & Hl' & Hx')|(Hd & Hl' & y & Hy & Hx')]]; lra.
+  destruct rest as [|b q].
+  - pose proof (walkH_inv_last _ _ _ _ _ Hv H01 Hw) as Hx'. lra.
+  - destruct (walkH_inv _ _ _ _ _ _ Hv H01 (cons_ne b q) Hw)
+      as [[Hd Hx']|[(Hd & Hl' & Hx')|(Hd & Hl' & y & Hy & Hx')]]; lra.
 Qed.
 
 Lemma outside_wf t vals v x :
@@ -1315,22 +1354,28 @@ Lemma outside_wf t vals v x :
 Proof.
   intros Hwf Hv Hv0 Hout Hroom H.
   assert (H01 : 0 < 1) by lra.
-  destruct (Qlt_le_dec v (inject_Z max_time)) as [Hlt|Hge].
-  - destruct (get_element_spec t v Hwf Hv0 Hlt) as (pre & el & rest & Hl & Hg & Hs & He).
-    destruct (vav_located _ _ _ _ _ _ Hwf Hv Hg H) as (x' & Hw & Hx).
-    assert (Hin : In el (td_elems t)) by (rewrite Hl; apply in_or_app; right; left; reflexivity).
+  destruct (get_element_any t v Hwf Hv0) as (pre & el & rest & Hl & Hg & Hs & He).
+  destruct (vav_located _ _ _ _ _ _ Hwf Hv Hg H) as (x' & Hw & Hx).
+  assert (Hin : In el (td_elems t)) by (rewrite Hl; apply in_or_app; right; left; reflexivity).
+  destruct rest as [|b q].
+  - (* in (or beyond) the last element, which is a default one *)
+    assert (Hk : e_expr el = 0%nat).
+    { destruct (wf_last _ Hwf) as [_ Hlk]. rewrite Hl, last_app_cons in Hlk. exact Hlk. }
+    rewrite Hk in Hw.
+    pose proof (walkH_inv_last _ _ _ _ _ Hv H01 Hw) as Hx'. lra.
+  - destruct He as [He|He]; [|discriminate He].
     assert (Hk : e_expr el = 0%nat).
     { destruct (Nat.eq_dec (e_expr el) 0) as [|C]; [assumption|].
       exfalso. apply (Hout el Hin C). split; assumption. }
     rewrite Hk in Hw.
-    destruct (walkH_inv _ _ _ _ _ _ Hv H01 Hw) as [[Hd Hx']|[(Hd & Hl' & Hx')|(Hd & Hl' & y & Hy & Hx')]];
+    destruct (walkH_inv _ _ _ _ _ _ Hv H01 (cons_ne b q) Hw)
+      as [[Hd Hx']|[(Hd & Hl' & Hx')|(Hd & Hl' & y & Hy & Hx')]];
       try lra.
-    exfalso. destruct rest as [|b q]; [discriminate|].
+    exfalso.
     pose proof (wf_chain _ Hwf) as Hc. rewrite Hl in Hc.
     destruct (chain_app_mid _ _ _ _ _ Hc) as [Hlk Hkk].
     assert (Hinb : In b (td_elems t)) by (rewrite Hl; apply in_or_app; right; right; left; reflexivity).
     pose proof (Hroom b Hinb (Hkk Hk)) as Hr. rewrite <- Hlk in Hr. lra.
-  - destruct (vav_late _ _ _ _ Hwf Hv Hge H). lra.
 Qed.
 
 Lemma lookup_mid_some m f : in_map m f = true -> forall p q, q <> [] ->
@@ -1402,27 +1447,17 @@ Proof.
   exfalso. apply (Hout el Hel C). split; assumption.
 Qed.
 
-Lemma total_wf t vals B v :
-  wf_td t -> vals_ok vals -> (forall k, vals k <= B) ->
-  0 <= v -> v + B <= inject_Z max_time ->
+(* no departure panics: an element is always found, and the walk from it
+   always ends (at the latest in the last element) *)
+Lemma total_wf t vals v :
+  wf_td t -> vals_ok vals -> 0 <= v ->
   exists x, value_at_value t vals v = Val x.
 Proof.
-  intros Hwf Hv HB Hv0 Hroom.
-  assert (H01 : 0 < 1) by lra.
-  destruct (Qlt_le_dec v (inject_Z max_time)) as [Hlt|Hge].
-  - destruct (get_element_spec t v Hwf Hv0 Hlt) as (pre & el & rest & Hl & Hg & Hs & He).
-    pose proof (wf_contig _ Hwf) as Hct. rewrite Hl in Hct. apply contig_app_r in Hct.
-    destruct (wf_last _ Hwf) as [Hle _]. rewrite Hl, last_app_cons in Hle.
-    destruct (walkH_total vals Hv B HB rest el (e_expr el) 0 v Hct H01) as [x Hx].
-    + lra.
-    + rewrite Hle. lra.
-    + pose proof (value_at_value_spec t vals v el rest Hv (wf_map _ Hwf) Hg) as Hsp.
-      rewrite Hx in Hsp. destruct (tdres_eq_val _ _ Hsp) as (y & Hy & _). exists y; exact Hy.
-  - (* only possible when B = 0, hence every expression is 0 *)
-    pose proof (value_at_value_spec t vals v _ _ Hv (wf_map _ Hwf) (get_element_late t v Hwf Hge)) as Hsp.
-    simpl in Hsp. unfold walkH in Hsp. rewrite hstep_zero in Hsp.
-    + destruct (tdres_eq_val _ _ Hsp) as (y & Hy & _). exists y; exact Hy.
-    + pose proof (Hv 0%nat). pose proof (HB 0%nat). lra.
+  intros Hwf Hv Hv0.
+  destruct (get_element_any t v Hwf Hv0) as (pre & el & rest & Hl & Hg & Hs & He).
+  destruct (walkH_total vals 0 (inject_Z (e_end el) - v) (e_expr el) rest) as [x Hx].
+  pose proof (value_at_value_spec t vals v el rest Hv (wf_map _ Hwf) Hg) as Hsp.
+  rewrite Hx in Hsp. destruct (tdres_eq_val _ _ Hsp) as (y & Hy & _). exists y; exact Hy.
 Qed.
 
 (* ------------------------------------------------------------------ *)
@@ -1513,15 +1548,14 @@ Proof.
     + exact H.
 Qed.
 
-Lemma C17_total_proof fs vals B v :
-  layout_ok fs -> vals_ok vals -> (forall k, vals k <= B) ->
-  0 <= v -> v + B <= inject_Z max_time ->
+Lemma C17_total_proof fs vals v :
+  layout_ok fs -> vals_ok vals -> 0 <= v ->
   exists x, value_at_value (fst (set_expressions td_empty fs)) vals v = Val x.
 Proof.
-  intros Hlay Hv HB Hv0 Hroom.
+  intros Hlay Hv Hv0.
   destruct (build_inv fs Hlay) as [_ [[-> Ht]|[Hwf Hm]]].
   - simpl. eexists; reflexivity.
-  - apply (total_wf _ vals B v Hwf Hv HB Hv0 Hroom).
+  - apply (total_wf _ vals v Hwf Hv Hv0).
 Qed.
 
 (* ------------------------------------------------------------------ *)
@@ -1582,12 +1616,26 @@ Proof. vm_compute. repeat split. Qed.
 Example ex_fifo_instance : 7000 + 2200 <= 10700 + 675.
 Proof. lra. Qed.
 
+(* departure 17900 in frame 3 (100 s = 1/3 of 300), the other 2/3 in the last
+   element at the default 600 *)
+Example ex_stitch_into_last : tdres_eq (value_at_value (built ex_fs) ex_vals 17900) (Val 500).
+Proof. vm_compute. reflexivity. Qed.
+
+(* departures in the last element, 10 s before max_time and 5 s after it: the
+   default duration, no panic *)
+Example ex_last_element :
+  tdres_eq (value_at_value (built ex_fs) ex_vals (inject_Z max_time - 10)) (Val 600) /\
+  tdres_eq (value_at_value (built ex_fs) ex_vals (inject_Z max_time + 5)) (Val 600).
+Proof. vm_compute. split; reflexivity. Qed.
+
 (* the hypotheses of the theorems are satisfiable together: totality applied
-   to the concrete layout *)
+   to the concrete layout, inside it and beyond max_time *)
 Example ex_total_instance : exists x, value_at_value (built ex_fs) ex_vals 7000 = Val x.
+Proof. apply (C17_total_proof ex_fs ex_vals 7000 ex_layout_ok ex_vals_ok). lra. Qed.
+
+Example ex_total_instance_late :
+  exists x, value_at_value (built ex_fs) ex_vals (inject_Z max_time + 5) = Val x.
 Proof.
-  apply (C17_total_proof ex_fs ex_vals 2400 7000 ex_layout_ok ex_vals_ok).
-  - intros [|[|[|k]]]; simpl; lra.
-  - lra.
-  - apply Qle_bool_iff. vm_compute. reflexivity.
+  apply (C17_total_proof ex_fs ex_vals _ ex_layout_ok ex_vals_ok).
+  apply Qle_bool_iff. vm_compute. reflexivity.
 Qed.
